@@ -126,8 +126,17 @@ def run_shape(draw):
     plain = [c for c, k in cms if k == "plain"]
     rule = [c for c, k in cms if k == "rule"]
     sast = [c for c, k in cms if k == "sast"]
-    mode = draw(st.sampled_from(["plain", "plain", "plain", "sast", "sast", "rule", "mixed", "unknown"]))
-    if mode == "plain":
+    mode = draw(st.sampled_from(["plain", "plain", "plain", "sast", "sast", "sast-same-name", "rule", "mixed", "unknown"]))
+    if mode == "sast-same-name":
+        # codemods of different origins that share a name (sonar:python/url-sandbox, semgrep:python/url-sandbox, ...)
+        # selected in one run, each with its own tool's result file: every one of them is reported
+        by_name = {}
+        for c in sast + plain + rule:
+            by_name.setdefault(c.split("/", 1)[1], []).append(c)
+        groups = sorted(v for v in by_name.values() if len(v) >= 2 and sum(1 for c in v if c in sast and engine.seeds_for(c)[1]) >= 1)
+        ids = list(draw(st.sampled_from(groups)))
+        ids = list(draw(st.permutations(ids)))
+    elif mode == "plain":
         ids = draw(st.lists(st.sampled_from(plain), min_size=1, max_size=4, unique=True))
     elif mode == "sast":
         tool = draw(st.sampled_from(["sonar", "semgrep", "defectdojo"]))
